@@ -26,6 +26,35 @@
 //     either "parallel" (as before, with a slow signer) or "stepwise" (every backend RPC and every
 //     signer call is a scheduling point, one request runs at a time, order drawn from the PRNG).
 //     Every STH served with 200 must verify under the log key and report the backend's root.
+//
+// The client side is LONG-LIVED: one client.LogClient and one ctutil.LogInfo per history, as a
+// monitor keeps them per log.  Issued SCTs are looked up through all three entry points of LogInfo
+// (VerifyInclusionAt with an explicit tree, VerifyInclusion which fetches and keeps the current
+// STH, VerifyInclusionLatest which uses the STH held), in the random stream, in concurrent rounds
+// and in the audit; the backend's root timestamps include roots less than a millisecond (or no
+// nanosecond) apart and steps at which the front end's clock stands still.  Oracle: a certificate
+// with an SCT whose entry the reference backend has sequenced is found by the client, whatever the
+// timestamps of the tree heads.
+//
+// CONFIGURATIONS.  The property quantifies over logs, not over one log: every history runs against
+// an instance drawn from a table of configurations (main: hcfgTable, stratified so that a quick run
+// covers every class) that varies
+//   - the kind of LOG KEY: ECDSA P-256, RSA-2048, RSA-3072, ECDSA P-384.  Every SCT and every STH
+//     is verified by the real client configured with that log's public key AND by the standard
+//     library (crypto/rsa, crypto/ecdsa) over hand-encoded RFC 6962 inputs, under the algorithms
+//     the DigitallySigned structure DECLARES (parsed by hand from the JSON answer), which must be
+//     SHA-256 and the signature algorithm of the key's type (RFC 6962 s2.1.4);
+//   - where ISSUANCE CHAINS are kept: inline in the backend's ExtraData, or in the external CTFE
+//     storage (an in-memory store behind ctfeenv.Options.ChainStorage, with a noop or a small LRU
+//     cache), where the backend holds only a hash of the chain.  Every entry served by
+//     get-entries and by get-entry-and-proof must be, byte for byte, the RFC 6962 s3.4 leaf and the
+//     s4.6 extra_data (hand-encoded) of an accepted submission of that certificate, and whatever
+//     either endpoint serves for an index must be what was served for it before (by either).
+//
+// The handlers write to a ResponseWriter (pieceWriter) that, while requests overlap, takes a body
+// over in pieces with a scheduling point between two pieces, so that responses interleave at the
+// byte level as they do on real connections; every response must still be the answer to its own
+// request.
 package main
 
 import (
@@ -33,6 +62,7 @@ import (
 	"context"
 	"crypto"
 	"crypto/ecdsa"
+	"crypto/rsa"
 	"crypto/sha256"
 	stdx509 "crypto/x509"
 	"encoding/base64"
@@ -42,6 +72,7 @@ import (
 	"flag"
 	"fmt"
 	"io"
+	stdlog "log"
 	"math/big"
 	"math/rand"
 	"net/http"
@@ -61,6 +92,7 @@ import (
 	"github.com/google/certificate-transparency-go/jsonclient"
 	cttls "github.com/google/certificate-transparency-go/tls"
 	"github.com/google/certificate-transparency-go/trillian/ctfe"
+	"github.com/google/certificate-transparency-go/trillian/ctfe/cache"
 	ctx509 "github.com/google/certificate-transparency-go/x509"
 	"github.com/google/certificate-transparency-go/x509/pkix"
 	"github.com/google/trillian"
@@ -83,7 +115,9 @@ Local Open Scope Z_scope.
 
 type world struct {
 	logKey         crypto.Signer
+	keyKind        string // kind of the current history's log key (pki.Key)
 	pubDER         []byte
+	logID          [32]byte
 	verifier       *ct.SignatureVerifier
 	rootA, rootB   *pki.Entity
 	interA, interB *pki.Entity // same subject and key, issued by rootA / rootB (cross-signed)
@@ -174,6 +208,144 @@ func (s *subject) refSCTInput(ts uint64, ext []byte) []byte {
 	return append(append(b, byte(len(ext)>>8), byte(len(ext))), ext...)
 }
 
+// refExtra is the extra_data of RFC 6962 s4.6 for this submission, hand-encoded: for an X.509 entry
+// `ASN.1Cert certificate_chain<0..2^24-1>`, for a precertificate entry PrecertChainEntry
+// { ASN.1Cert pre_certificate; ASN.1Cert precertificate_chain<0..2^24-1> }, the chain being the
+// validated path after the leaf, root included.
+func (s *subject) refExtra() []byte {
+	var chain []byte
+	for _, c := range s.path {
+		chain = put24(chain, c)
+	}
+	if !s.pre {
+		return put24(nil, chain)
+	}
+	return put24(put24(nil, s.der), chain)
+}
+
+// refSTHInput is the digitally-signed struct of RFC 6962 s3.5 (v1, tree_hash), hand-encoded.
+func refSTHInput(ts, size uint64, root []byte) []byte {
+	b := binary.BigEndian.AppendUint64([]byte{0, 1}, ts)
+	b = binary.BigEndian.AppendUint64(b, size)
+	return append(b, root...)
+}
+
+// parseDS splits a TLS DigitallySigned (RFC 5246 s4.7: HashAlgorithm, SignatureAlgorithm,
+// opaque signature<0..2^16-1>) by hand.
+func parseDS(b []byte) (hashAlg, sigAlg byte, sig []byte, ok bool) {
+	if len(b) < 4 || len(b) != 4+(int(b[2])<<8|int(b[3])) {
+		return 0, 0, nil, false
+	}
+	return b[0], b[1], b[4:], true
+}
+
+// refSigCheck is the reference verdict on a signature of the log: the standard library verifies
+// sig over input under the algorithms the structure DECLARES (RFC 5246 s7.4.1.4.1 code points), and
+// the declaration must be what RFC 6962 s2.1.4 prescribes for a key of this type: SHA-256 with
+// RSASSA-PKCS1-v1_5 for an RSA key, SHA-256 with ECDSA for an elliptic-curve key.  "" = verifies.
+func refSigCheck(pub crypto.PublicKey, hashAlg, sigAlg byte, sig, input []byte) string {
+	hashes := map[byte]crypto.Hash{1: crypto.MD5, 2: crypto.SHA1, 3: crypto.SHA224, 4: crypto.SHA256, 5: crypto.SHA384, 6: crypto.SHA512}
+	ch, ok := hashes[hashAlg]
+	if !ok || !ch.Available() {
+		return fmt.Sprintf("declares hash algorithm %d", hashAlg)
+	}
+	hw := ch.New()
+	hw.Write(input)
+	d := hw.Sum(nil)
+	const sigRSA, sigECDSA = 1, 3
+	switch k := pub.(type) {
+	case *rsa.PublicKey:
+		if sigAlg != sigRSA {
+			return fmt.Sprintf("is labelled with signature algorithm %d, the log key is RSA", sigAlg)
+		}
+		if rsa.VerifyPKCS1v15(k, ch, d, sig) != nil {
+			return "does not verify (crypto/rsa, PKCS#1 v1.5) under the declared hash algorithm"
+		}
+	case *ecdsa.PublicKey:
+		if sigAlg != sigECDSA {
+			return fmt.Sprintf("is labelled with signature algorithm %d, the log key is ECDSA", sigAlg)
+		}
+		if !ecdsa.VerifyASN1(k, d, sig) {
+			return "does not verify (crypto/ecdsa) under the declared hash algorithm"
+		}
+	default:
+		panic("log key of an unexpected type")
+	}
+	if ch != crypto.SHA256 {
+		return fmt.Sprintf("declares hash algorithm %d, RFC 6962 prescribes SHA-256", hashAlg)
+	}
+	return ""
+}
+
+// rawSCTCheck: the add-chain answer as it came over the wire (JSON and DigitallySigned decoded
+// here, not by the client library) is a v1 SCT of this log that verifies over the hand-encoded
+// RFC 6962 s3.2 input for the submission.  "" = it is.
+func (w *world) rawSCTCheck(body []byte, s *subject) string {
+	var rsp struct {
+		Version    uint8  `json:"sct_version"`
+		ID         []byte `json:"id"`
+		Timestamp  uint64 `json:"timestamp"`
+		Extensions string `json:"extensions"`
+		Signature  []byte `json:"signature"`
+	}
+	if err := json.Unmarshal(body, &rsp); err != nil {
+		return "answer is not JSON"
+	}
+	ext, err := base64.StdEncoding.DecodeString(rsp.Extensions)
+	if err != nil {
+		return "extensions are not base64"
+	}
+	if rsp.Version != 0 || !bytes.Equal(rsp.ID, w.logID[:]) {
+		return "is not a v1 SCT carrying the log's id (SHA-256 of its SubjectPublicKeyInfo)"
+	}
+	ha, sa, sig, ok := parseDS(rsp.Signature)
+	if !ok {
+		return "signature is not a DigitallySigned structure"
+	}
+	return refSigCheck(w.logKey.Public(), ha, sa, sig, s.refSCTInput(rsp.Timestamp, ext))
+}
+
+// rawSTHCheck: the same for a get-sth answer and the RFC 6962 s3.5 input.
+func (w *world) rawSTHCheck(body []byte) string {
+	var rsp struct {
+		Size      uint64 `json:"tree_size"`
+		Timestamp uint64 `json:"timestamp"`
+		Root      []byte `json:"sha256_root_hash"`
+		Signature []byte `json:"tree_head_signature"`
+	}
+	if err := json.Unmarshal(body, &rsp); err != nil {
+		return "answer is not JSON"
+	}
+	if len(rsp.Root) != 32 {
+		return "root hash is not 32 bytes"
+	}
+	ha, sa, sig, ok := parseDS(rsp.Signature)
+	if !ok {
+		return "signature is not a DigitallySigned structure"
+	}
+	return refSigCheck(w.logKey.Public(), ha, sa, sig, refSTHInput(rsp.Timestamp, rsp.Size, rsp.Root))
+}
+
+// setLogKey makes the key of the given kind the log key of the next history.
+func (w *world) setLogKey(kind string) {
+	idx := 0
+	if kind == "p256" {
+		idx = 7
+	}
+	w.keyKind, w.logKey = kind, pki.Key(kind, idx)
+	var err error
+	if w.pubDER, err = stdx509.MarshalPKIXPublicKey(w.logKey.Public()); err != nil {
+		panic(err)
+	}
+	w.logID = sha256.Sum256(w.pubDER)
+	// RFC 6962 s2.1.4 names P-256 and RSA; a log on another curve is "technically non-compliant"
+	// and the client library verifies for it only when told so
+	ct.AllowVerificationWithNonCompliantKeys = kind == "p384"
+	if w.verifier, err = ct.NewSignatureVerifier(w.logKey.Public()); err != nil {
+		panic(err)
+	}
+}
+
 func (w *world) nextSerial() int64 { w.serial++; return w.serial }
 
 func (w *world) leaf(r *rand.Rand, n int) *subject {
@@ -221,6 +393,14 @@ func (w *world) twins(n int) (*subject, *subject) {
 
 type tagKey struct{}
 
+// retryStopKey: LogClient.AddChain retries for ever, with a real-time back-off, a POST whose answer
+// is 408 / 429 / 503 or a 200 whose body is not JSON ("the caller should set a deadline").  The
+// harness has no wall-clock deadlines; instead the transport cancels the submission's context as
+// soon as it has delivered such an answer, so that the client gives up at once and the submission
+// is reported as refused (a valid submission must be answered with an SCT the first time here:
+// the reference backend never asks for a retry).
+type retryStopKey struct{}
+
 type callTag struct {
 	worker int
 	call   int
@@ -248,6 +428,76 @@ type memRT struct {
 	exs   []*exchange
 	byTag map[callTag]*exchange
 	cur   sync.Map // goroutine id -> *exchange being served on that goroutine
+	// yield, if set, is called by the ResponseWriter of a request between two pieces of a body it
+	// is taking over (see pieceWriter); cutSeed varies the cuts from round to round
+	yield   func(ex *exchange)
+	cutSeed uint64
+}
+
+func (t *memRT) setYield(f func(ex *exchange), seed uint64) {
+	t.mu.Lock()
+	t.yield, t.cutSeed = f, seed
+	t.mu.Unlock()
+}
+
+// pieceWriter is the http.ResponseWriter the handlers write to.  A connection does not take a
+// response body over in one instant: net/http copies it into a 4 KB buffer and on to a socket, and
+// the handler can be descheduled or blocked (slow reader) in the middle of Write while other
+// requests are served.  When the transport has a yield function, Write therefore takes the slice
+// it is given over in PIECES (a short first piece, then growing ones: a handful of pieces even for
+// a body of hundreds of KB) with a scheduling point between two pieces - the gate of a stepwise
+// round, runtime.Gosched in a parallel round, a channel in the held-inside-Write scenario - so that
+// the responses of overlapping requests interleave at the byte level.  The bytes of a piece are
+// read from the caller's slice only when the piece is taken: whoever changes the slice while
+// Write has not returned changes what the client receives, as on a real connection.  Without a
+// yield function (no overlapping requests) the body is taken in one piece, like
+// httptest.ResponseRecorder does.
+type pieceWriter struct {
+	hdr   http.Header
+	code  int
+	body  bytes.Buffer
+	yield func()
+	rnd   uint64 // splitmix64 state for the cuts
+}
+
+func (w *pieceWriter) Header() http.Header { return w.hdr }
+
+func (w *pieceWriter) WriteHeader(code int) {
+	if w.code == 0 {
+		w.code = code
+	}
+}
+
+func (w *pieceWriter) next() uint64 {
+	w.rnd += 0x9e3779b97f4a7c15
+	z := w.rnd
+	z = (z ^ (z >> 30)) * 0xbf58476d1ce4e5b9
+	z = (z ^ (z >> 27)) * 0x94d049bb133111eb
+	return z ^ (z >> 31)
+}
+
+func (w *pieceWriter) Write(p []byte) (int, error) {
+	if w.code == 0 {
+		w.code = http.StatusOK
+	}
+	if w.yield == nil {
+		w.body.Write(p)
+		return len(p), nil
+	}
+	piece := 1 + int(w.next()%48)
+	for off := 0; off < len(p); {
+		n := piece
+		if n > len(p)-off {
+			n = len(p) - off
+		}
+		w.body.Write(p[off : off+n])
+		off += n
+		if off < len(p) {
+			w.yield()
+		}
+		piece = 3*piece + int(w.next()%64)
+	}
+	return len(p), nil
 }
 
 // goid is the id of the calling goroutine.  The handlers run synchronously on the goroutine that
@@ -335,11 +585,15 @@ func (t *memRT) RoundTrip(req *http.Request) (*http.Response, error) {
 		t.byTag = map[callTag]*exchange{}
 	}
 	t.byTag[tag] = ex
+	yield, cutSeed := t.yield, t.cutSeed
 	t.mu.Unlock()
 	g := goid()
 	t.cur.Store(g, ex)
 	defer t.cur.Delete(g)
-	w := httptest.NewRecorder()
+	w := &pieceWriter{hdr: http.Header{}, rnd: cutSeed ^ uint64(tag.worker)<<32 ^ uint64(tag.call)<<8 ^ uint64(len(body))}
+	if yield != nil {
+		w.yield = func() { yield(ex) }
+	}
 	h, ok := t.env.Inst.Handlers[req.URL.Path]
 	if !ok {
 		w.WriteHeader(http.StatusNotFound)
@@ -355,13 +609,30 @@ func (t *memRT) RoundTrip(req *http.Request) (*http.Response, error) {
 			h.ServeHTTP(w, r2)
 		}()
 	}
-	ex.status, ex.body = w.Code, w.Body.Bytes()
+	if w.code == 0 {
+		w.code = http.StatusOK
+	}
+	ex.status, ex.body = w.code, w.body.Bytes()
+	rec := httptest.NewRecorder()
 	if ex.paniced {
 		ex.status = 599
-		w = httptest.NewRecorder()
-		w.WriteHeader(599)
+		rec.WriteHeader(599)
+	} else {
+		for k, v := range w.hdr {
+			rec.Header()[k] = v
+		}
+		rec.WriteHeader(w.code)
+		rec.Write(ex.body)
 	}
-	res := w.Result()
+	if cancel, ok := req.Context().Value(retryStopKey{}).(context.CancelFunc); ok {
+		var probe ct.AddChainResponse
+		switch {
+		case ex.status == http.StatusRequestTimeout, ex.status == http.StatusTooManyRequests, ex.status == http.StatusServiceUnavailable,
+			ex.status == http.StatusOK && json.Unmarshal(ex.body, &probe) != nil:
+			cancel()
+		}
+	}
+	res := rec.Result()
 	res.Request = req
 	return res, nil
 }
@@ -391,6 +662,11 @@ type hist struct {
 	maxr int64
 	algn bool
 	ns0  uint64
+	// external: issuance chains are kept in the external CTFE storage (store), not in the backend
+	cf       hcfg
+	external bool
+	store    *chainStore
+	servedAt map[int]servedEntry // what either entry endpoint served for an index (under mu)
 
 	mu        sync.Mutex
 	subs      map[callTag]*submission
@@ -407,7 +683,35 @@ type hist struct {
 	inRound   bool
 	stray     *pki.Entity
 	signer    *hookedSigner
-	sthBias   bool // concurrent round in which most operations are get-sth
+	sthBias   bool   // concurrent round in which most operations are get-sth
+	rootNS    uint64 // timestamp of the backend's latest root (main goroutine)
+}
+
+// sequenceAt is a sequencing step of the backend made by the main goroutine.
+func (h *hist) sequenceAt(k int, ns uint64) {
+	h.log.Sequence(context.Background(), k, ns)
+	h.rootNS = ns
+	h.tagf("op:sequence-%d", min(k, 4))
+}
+
+// rootTime draws the timestamp of the next root.  Besides "some time after the front end's clock"
+// (which the clock's next step may overtake or not) the backend publishes roots that follow the
+// previous one within the same nanosecond reading or the same millisecond (two sequencing steps
+// less than 1 ms apart, a clock that was not advanced), or exactly on the next millisecond: the
+// RFC 6962 timestamps of two different tree heads may be equal.
+func (h *hist) rootTime(r *rand.Rand) uint64 {
+	switch r.Intn(8) {
+	case 0:
+		h.tagf("root-time:same-nanosecond")
+		return h.rootNS
+	case 1:
+		h.tagf("root-time:same-millisecond")
+		return h.rootNS + uint64(r.Int63n(int64(1000000-h.rootNS%1000000)))
+	case 2:
+		h.tagf("root-time:next-millisecond")
+		return (h.rootNS/1000000 + 1) * 1000000
+	}
+	return uint64(h.clockNS) + uint64(r.Int63n(2e9))
 }
 
 func (h *hist) fail(f string, a ...interface{}) {
@@ -467,10 +771,13 @@ func (h *hist) submit(tag callTag, s *subject, wrongEndpoint bool) *submission {
 	}
 	var sct *ct.SignedCertificateTimestamp
 	var err error
+	cctx, cancel := context.WithCancel(h.ctx(tag))
+	defer cancel()
+	cctx = context.WithValue(cctx, retryStopKey{}, cancel)
 	if pre {
-		sct, err = h.lc.AddPreChain(h.ctx(tag), asn1Chain(s.submit))
+		sct, err = h.lc.AddPreChain(cctx, asn1Chain(s.submit))
 	} else {
-		sct, err = h.lc.AddChain(h.ctx(tag), asn1Chain(s.submit))
+		sct, err = h.lc.AddChain(cctx, asn1Chain(s.submit))
 	}
 	sb.sct, sb.err = sct, err
 	if wrongEndpoint {
@@ -508,18 +815,14 @@ func (h *hist) submit(tag callTag, s *subject, wrongEndpoint bool) *submission {
 	return sb
 }
 
-// refSCTVerifies checks the SCT with crypto/ecdsa over the hand-encoded signature input.
+// refSCTVerifies checks the SCT the client returned with the standard library over the hand-encoded
+// signature input, under the algorithms it declares (see refSigCheck).
 func (h *hist) refSCTVerifies(s *subject, sct *ct.SignedCertificateTimestamp) bool {
-	pub, ok := h.w.logKey.Public().(*ecdsa.PublicKey)
-	if !ok {
-		panic("the harness's log key is ECDSA")
-	}
-	id := sha256.Sum256(h.w.pubDER)
-	if sct.SCTVersion != ct.V1 || sct.LogID.KeyID != id || sct.Signature.Algorithm.Hash != cttls.SHA256 || sct.Signature.Algorithm.Signature != cttls.ECDSA {
+	if sct.SCTVersion != ct.V1 || sct.LogID.KeyID != h.w.logID {
 		return false
 	}
-	d := sha256.Sum256(s.refSCTInput(sct.Timestamp, sct.Extensions))
-	return ecdsa.VerifyASN1(pub, d[:], sct.Signature.Signature)
+	return refSigCheck(h.w.logKey.Public(), byte(sct.Signature.Algorithm.Hash), byte(sct.Signature.Algorithm.Signature),
+		sct.Signature.Signature, s.refSCTInput(sct.Timestamp, sct.Extensions)) == ""
 }
 
 // embeddedRoute: the CA issues the final certificate with the SCT embedded; a TLS client has only
@@ -631,6 +934,97 @@ func (h *hist) consistency(tag callTag, first, second uint64, inRange bool) {
 	}
 }
 
+// chainStore is the external CTFE storage of issuance chains (storage.IssuanceChainStorage), in
+// memory: what the MySQL / PostgreSQL tables do (insert unless present, select by key).
+type chainStore struct {
+	mu        sync.Mutex
+	m         map[string][]byte
+	adds, got int
+}
+
+func (s *chainStore) FindByKey(_ context.Context, key []byte) ([]byte, error) {
+	s.mu.Lock()
+	defer s.mu.Unlock()
+	s.got++
+	v, ok := s.m[string(key)]
+	if !ok {
+		return nil, errors.New("issuance chain not found")
+	}
+	return append([]byte{}, v...), nil
+}
+
+func (s *chainStore) Add(_ context.Context, key, chain []byte) error {
+	s.mu.Lock()
+	defer s.mu.Unlock()
+	s.adds++
+	if _, ok := s.m[string(key)]; !ok {
+		s.m[string(key)] = append([]byte{}, chain...)
+	}
+	return nil
+}
+
+type servedEntry struct {
+	li, x []byte
+	by    string
+}
+
+// served is the oracle on ONE entry that an endpoint served for index idx (the property: "every
+// entry served for index i ... whose stored entry decodes to the submitted certificate and chain"),
+// wherever the instance keeps its issuance chains:
+//   - leaf_input is the backend's leaf i, and is the RFC 6962 s3.4 leaf (hand-encoded from the
+//     harness's reference data) of a submission of the certificate stored under that leaf's identity;
+//   - extra_data is, byte for byte, the hand-encoded RFC 6962 s4.6 extra_data of such a submission
+//     (several candidates only when the certificate was submitted with different chains); with
+//     inline chains it is also the backend's ExtraData;
+//   - it is what was served for idx before, by this or by the other endpoint.
+func (h *hist) served(by string, idx int, li, x []byte) {
+	st := h.log.LeafAt(idx)
+	if !bytes.Equal(st.Value, li) {
+		h.fail("%s: leaf_input served for index %d is not the stored leaf", by, idx)
+	}
+	if !h.external && !bytes.Equal(st.Extra, x) {
+		h.fail("%s: extra_data served for index %d is not the stored extra data", by, idx)
+	}
+	h.mu.Lock()
+	defer h.mu.Unlock()
+	leafOK, extraOK, known := false, false, false
+	for _, sb := range h.subs {
+		if sb.bad != "" || sb.sub.der == nil {
+			continue
+		}
+		if id := sha256.Sum256(sb.sub.der); !bytes.Equal(id[:], st.ID) {
+			continue
+		}
+		known = true
+		if len(li) > 10 && li[0] == 0 && li[1] == 0 && bytes.Equal(li[10:], append(sb.sub.refEntry(nil), 0, 0)) {
+			leafOK = true
+		}
+		if bytes.Equal(x, sb.sub.refExtra()) {
+			extraOK = true
+		}
+	}
+	if !known {
+		h.fails = append(h.fails, fmt.Sprintf("%s: index %d holds a leaf whose identity is not the SHA-256 of a submitted certificate", by, idx))
+	} else {
+		if !leafOK {
+			h.fails = append(h.fails, fmt.Sprintf("%s: leaf_input served for index %d is not the RFC 6962 leaf of the certificate submitted under that identity", by, idx))
+		}
+		if !extraOK {
+			h.fails = append(h.fails, fmt.Sprintf("%s: extra_data served for index %d (%d bytes) is not the RFC 6962 extra_data (certificate and chain) of a submission of that certificate", by, idx, len(x)))
+		}
+	}
+	if old, ok := h.servedAt[idx]; ok {
+		if !bytes.Equal(old.li, li) || !bytes.Equal(old.x, x) {
+			h.fails = append(h.fails, fmt.Sprintf("%s: the entry served for index %d differs from the one %s served for it before", by, idx, old.by))
+		}
+		if old.by != by {
+			h.tags["observed:entry-served-by-both-endpoints"]++
+		}
+	} else {
+		h.servedAt[idx] = servedEntry{append([]byte{}, li...), append([]byte{}, x...), by}
+	}
+}
+
 func (h *hist) entryAndProof(tag callTag, idx, size uint64, inRange bool) {
 	rsp, err := h.lc.GetEntryAndProof(h.ctx(tag), idx, size)
 	if !inRange {
@@ -647,10 +1041,7 @@ func (h *hist) entryAndProof(tag callTag, idx, size uint64, inRange bool) {
 	if verr := proof.VerifyInclusion(rfc6962.DefaultHasher, idx, size, lh, rsp.AuditPath, h.log.RootAt(int(size))); verr != nil {
 		h.fail("get-entry-and-proof(%d,%d): audit path does not verify: %v", idx, size, verr)
 	}
-	st := h.log.LeafAt(int(idx))
-	if !bytes.Equal(st.Value, rsp.LeafInput) || !bytes.Equal(st.Extra, rsp.ExtraData) {
-		h.fail("get-entry-and-proof(%d,%d): served bytes are not the stored leaf", idx, size)
-	}
+	h.served("get-entry-and-proof", int(idx), rsp.LeafInput, rsp.ExtraData)
 }
 
 func (h *hist) entries(tag callTag, start, end int64, inRange bool) {
@@ -669,10 +1060,11 @@ func (h *hist) entries(tag callTag, start, end int64, inRange bool) {
 		h.fail("get-entries(%d,%d): %d entries", start, end, len(rsp.Entries))
 	}
 	for j, e := range rsp.Entries {
-		st := h.log.LeafAt(int(start) + j)
-		if !bytes.Equal(st.Value, e.LeafInput) || !bytes.Equal(st.Extra, e.ExtraData) {
-			h.fail("get-entries(%d,%d): entry %d is not the stored leaf", start, end, j)
+		if int(start)+j >= h.log.Size() {
+			h.fail("get-entries(%d,%d): entry %d is beyond the log's %d entries", start, end, j, h.log.Size())
+			break
 		}
+		h.served("get-entries", int(start)+j, e.LeafInput, e.ExtraData)
 	}
 }
 
@@ -842,14 +1234,43 @@ func (h *hist) op(rr *rand.Rand, tag callTag) {
 			h.getSTH(tag)
 			return
 		}
-		h.tagf("op:loginfo-verify-inclusion")
-		h.verifyInclusion(tag, sb, size, false)
+		how := rr.Intn(3)
+		h.tagf("op:loginfo-verify-inclusion-" + viName[how])
+		h.verifyInclusion(tag, sb, how, size)
 	}
 }
 
-// verifyInclusion runs ctutil.LogInfo.VerifyInclusionAt for an issued SCT against the tree of the
-// given size; mustFind: the leaf is known to be sequenced below that size.
-func (h *hist) verifyInclusion(tag callTag, sb *submission, size uint64, mustFind bool) int64 {
+// The entry points of ctutil.LogInfo through which a client looks an SCT's leaf up.  The LogInfo
+// (and the LogClient under it) is ONE object for the whole history, like the verifier a monitor or
+// a browser keeps per log: it remembers the last STH it fetched.
+const (
+	viAt      = iota // VerifyInclusionAt: tree size and root given by the caller
+	viCurrent        // VerifyInclusion: fetches the log's current STH, remembers it, looks the leaf up in that tree
+	viLatest         // VerifyInclusionLatest: looks the leaf up in the tree of the STH the LogInfo holds (fetches one if it holds none)
+)
+
+var viName = []string{"at", "current", "latest"}
+
+// seqIndex is the lowest index at which the reference backend has sequenced a leaf with the leaf
+// hash derived (RFC 6962 s3.4, by hand) from the submission's certificate and SCT; -1: not sequenced.
+func (h *hist) seqIndex(sb *submission) int64 {
+	n := h.log.Size()
+	for i := 0; i < n; i++ {
+		if bytes.Equal(h.log.LeafAt(i).MerkleHash, sb.refH) {
+			return int64(i)
+		}
+	}
+	return -1
+}
+
+// verifyInclusion looks the leaf of an issued SCT up through the history's LogInfo.  The oracle is
+// the property's last sentence on what the CLIENT reports: a certificate for which an SCT was
+// issued and whose entry the backend has sequenced (reference backend, before the call started)
+// is found - in the tree of the given size (viAt), in the log's current tree whatever the
+// timestamps of its tree heads (viCurrent), in the tree of the STH the client holds (viLatest,
+// sequential phases; in a concurrent round which STH another worker's call has just left there is
+// not determined) - and the index reported is one at which the backend holds that leaf.
+func (h *hist) verifyInclusion(tag callTag, sb *submission, how int, size uint64) int64 {
 	etype := ct.X509LogEntryType
 	if sb.sub.pre {
 		etype = ct.PrecertLogEntryType
@@ -859,11 +1280,48 @@ func (h *hist) verifyInclusion(tag callTag, sb *submission, size uint64, mustFin
 		h.fail("MerkleTreeLeafFromChain(%s): %v", sb.sub.name, err)
 		return -1
 	}
-	idx, err := h.li.VerifyInclusionAt(h.ctx(tag), *leaf, sb.sct.Timestamp, size, h.log.RootAt(int(size)))
+	at := h.seqIndex(sb)
+	var idx int64
+	mustFind := false
+	where := ""
+	switch how {
+	case viAt:
+		mustFind = at >= 0 && uint64(at) < size
+		where = fmt.Sprintf("tree %d (VerifyInclusionAt)", size)
+		idx, err = h.li.VerifyInclusionAt(h.ctx(tag), *leaf, sb.sct.Timestamp, size, h.log.RootAt(int(size)))
+	case viCurrent:
+		mustFind = at >= 0
+		where = "the log's current tree (VerifyInclusion)"
+		idx, err = h.li.VerifyInclusion(h.ctx(tag), *leaf, sb.sct.Timestamp)
+	case viLatest:
+		held := h.li.LastSTH()
+		h.mu.Lock()
+		inRound := h.inRound
+		h.mu.Unlock()
+		if held == nil {
+			mustFind = at >= 0
+			where = "the tree of the STH it fetches (VerifyInclusionLatest, none held)"
+		} else {
+			mustFind = !inRound && at >= 0 && uint64(at) < held.TreeSize
+			where = fmt.Sprintf("the tree of the STH it holds, size %d (VerifyInclusionLatest)", held.TreeSize)
+		}
+		idx, err = h.li.VerifyInclusionLatest(h.ctx(tag), *leaf, sb.sct.Timestamp)
+	}
+	if how != viAt {
+		if held := h.li.LastSTH(); held != nil { // an STH the client was served and now relies on
+			h.mu.Lock()
+			h.sths = append(h.sths, held)
+			h.mu.Unlock()
+		}
+	}
 	if err != nil {
 		if mustFind {
-			h.fail("SCT leaf of %s (%s) not found / not verified in tree %d: %v", sb.sub.name, sb.sub.kind, size, err)
+			h.fail("SCT leaf of %s (%s), sequenced at index %d, not found / not verified by ctutil.LogInfo in %s", sb.sub.name, sb.sub.kind, at, where)
 		}
+		return -1
+	}
+	if idx < 0 || idx >= int64(h.log.Size()) || !bytes.Equal(h.log.LeafAt(int(idx)).MerkleHash, sb.refH) {
+		h.fail("SCT leaf of %s (%s): ctutil.LogInfo reports index %d in %s, where the backend does not hold that leaf", sb.sub.name, sb.sub.kind, idx, where)
 		return -1
 	}
 	return idx
@@ -984,8 +1442,7 @@ func (h *hist) sthOverlap(next func() callTag, advance func()) {
 		if cur != nil && ns/1000000 == cur.Timestamp {
 			ns += 1000000 // a tree head with other bytes even if no leaf is integrated
 		}
-		h.log.Sequence(context.Background(), k, ns)
-		h.tagf("op:sequence-%d", min(k, 4))
+		h.sequenceAt(k, ns)
 	}
 	newHead(h.log.Queued())
 	n := 1 + r.Intn(4)
@@ -1056,14 +1513,187 @@ func (h *hist) sthOverlap(next func() callTag, advance func()) {
 	h.getSTH(next()) // the retry / the next request for the same tree head
 }
 
+// ---------------------------------------------------------------- tree heads within one millisecond
+
+// headsInOneMillisecond: the history's long-lived LogInfo looks a sequenced certificate up in the
+// current tree (and so holds that tree's STH); then once or twice: a further certificate is given an
+// SCT (the front end's clock moves or stands still), the backend sequences it and publishes a
+// root whose timestamp is the previous root's (same nanosecond reading), a later one within the
+// same millisecond, the next millisecond exactly, or any later time; the client looks the new
+// certificate up through VerifyInclusion and then through VerifyInclusionLatest.  It has an SCT
+// and is sequenced: it must be found, whatever the timestamps of the tree heads.
+func (h *hist) headsInOneMillisecond(next func() callTag, advance func()) {
+	r := h.r
+	h.tagf("scenario:tree-heads-in-one-millisecond")
+	advance()
+	// a certificate that is sequenced already, or a new one
+	var a *submission
+	for _, sb := range h.accepted {
+		if h.seqIndex(sb) >= 0 {
+			a = sb
+			break
+		}
+	}
+	ns := h.rootNS
+	if a == nil {
+		a = h.submit(next(), h.freshSubject(), false)
+		if ns < uint64(h.clockNS) {
+			ns = uint64(h.clockNS)
+		}
+		ns += uint64(r.Int63n(2e9))
+		h.sequenceAt(h.log.Queued(), ns)
+	}
+	if a.sct != nil {
+		h.verifyInclusion(next(), a, viCurrent, 0)
+	}
+	for i, k := 0, 1+r.Intn(2); i < k; i++ {
+		if r.Intn(2) == 0 {
+			advance()
+		}
+		b := h.submit(next(), h.freshSubject(), false)
+		switch r.Intn(4) {
+		case 0:
+			h.tagf("root-time:same-nanosecond")
+		case 1:
+			h.tagf("root-time:same-millisecond")
+			ns += uint64(r.Int63n(int64(1000000 - ns%1000000)))
+		case 2:
+			h.tagf("root-time:next-millisecond")
+			ns = (ns/1000000 + 1) * 1000000
+		default:
+			ns += uint64(r.Int63n(2e9))
+		}
+		h.sequenceAt(h.log.Queued(), ns)
+		if b.sct != nil {
+			h.verifyInclusion(next(), b, viCurrent, 0)
+			h.verifyInclusion(next(), b, viLatest, 0)
+		}
+	}
+}
+
+// ---------------------------------------------------------------- requests held inside Write
+
+// heldInsideWrite: 1..2 requests (any operation of the random stream) are started one after the
+// other and each is held INSIDE the ResponseWriter's Write, after the first piece of its body has
+// been taken over (a slow reader, a full socket buffer); while they are held 1..2 other requests
+// are served from beginning to end; then the held ones are released in a drawn order and finish.
+// Every answer must be the answer to its own request (the per-request oracles of the operations,
+// and the emit pass).  In half of the runs the Go runtime is given a single processor for the
+// duration, so that what the handlers share per processor (sync.Pool and the like) is shared by
+// all the requests; nothing else here depends on the Go scheduler.
+func (h *hist) heldInsideWrite(next func() callTag, advance func()) {
+	r := h.r
+	h.tagf("scenario:requests-held-inside-write")
+	advance()
+	nheld, nother := 1+r.Intn(2), 1+r.Intn(2)
+	h.fillPool(2 * (nheld + nother))
+	h.mu.Lock()
+	h.inRound = true
+	h.mu.Unlock()
+	if r.Intn(2) == 0 {
+		h.tagf("processors:one")
+		defer runtime.GOMAXPROCS(runtime.GOMAXPROCS(1))
+	}
+	type inflight struct {
+		entered, release, done chan struct{}
+		held                   bool
+	}
+	var mu sync.Mutex
+	reg := map[callTag]*inflight{}
+	h.rt.setYield(func(ex *exchange) {
+		mu.Lock()
+		f := reg[ex.tag]
+		first := f != nil && !f.held
+		if first {
+			f.held = true
+		}
+		mu.Unlock()
+		if first {
+			close(f.entered)
+			<-f.release
+		}
+	}, r.Uint64())
+	var fl []*inflight
+	inside := 0
+	for i := 0; i < nheld; i++ {
+		f := &inflight{entered: make(chan struct{}), release: make(chan struct{}), done: make(chan struct{})}
+		tag := next()
+		mu.Lock()
+		reg[tag] = f
+		mu.Unlock()
+		fl = append(fl, f)
+		rr := rand.New(rand.NewSource(r.Int63()))
+		go func() {
+			defer close(f.done)
+			h.op(rr, tag)
+		}()
+		select {
+		case <-f.entered:
+			inside++
+		case <-f.done:
+		}
+	}
+	if inside > 0 {
+		h.tagf("observed:request-held-inside-write")
+	}
+	for i := 0; i < nother; i++ {
+		h.op(r, next())
+	}
+	for _, i := range r.Perm(nheld) {
+		close(fl[i].release)
+		<-fl[i].done
+	}
+	h.rt.setYield(nil, 0)
+	h.mu.Lock()
+	h.inRound, h.pool = false, nil
+	h.mu.Unlock()
+}
+
 // ---------------------------------------------------------------- run one history
 
 func bigU(v uint64) string      { return strconv.FormatUint(v, 10) }
 func bigUint(v uint64) *big.Int { return new(big.Int).SetUint64(v) }
 func bigInt(v int64) *big.Int   { return big.NewInt(v) }
 
-func runHistory(w *world, r *rand.Rand, conc bool, caseNo int) lib.Case {
+// hcfg is the configuration of the log a history runs against.
+type hcfg struct {
+	key   string // kind of log key (pki.Key)
+	store string // "inline": issuance chains in the backend's ExtraData; "external-noop" / "external-lru": external CTFE storage behind that cache
+}
+
+// hcfgTable: the configurations are dealt to the histories from this table in a drawn order, so
+// that any ten consecutive histories (a quick run's sequential ones) and the first five (its
+// concurrent ones) cover every kind of key, both places for the chains, and RSA / P-256 with each.
+var hcfgTable = []hcfg{
+	{"p256", "inline"}, {"rsa2048", "external-noop"}, {"p256", "external-lru"}, {"rsa2048", "inline"}, {"p384", "external-noop"},
+	{"p256", "inline"}, {"rsa3072", "inline"}, {"p256", "external-noop"}, {"rsa2048", "external-lru"}, {"p384", "inline"},
+}
+
+// deal returns n configurations: the table repeated, in an order drawn from the PRNG.
+func deal(r *rand.Rand, n int) []hcfg {
+	out := make([]hcfg, n)
+	for i, j := range r.Perm(n) {
+		out[i] = hcfgTable[j%len(hcfgTable)]
+	}
+	return out
+}
+
+func runHistory(w *world, r *rand.Rand, conc bool, caseNo int, cf hcfg) lib.Case {
 	w.certs, w.certIdx, w.precerts = nil, map[string]int{}, map[int]bool{}
+	w.setLogKey(cf.key)
+	var store *chainStore
+	var chainCache cache.IssuanceChainCache
+	if cf.store != "inline" {
+		store = &chainStore{m: map[string][]byte{}}
+		ctype, copt := cache.NOOP, cache.Option{}
+		if cf.store == "external-lru" { // small: chains are evicted and read back from the store
+			ctype, copt = cache.LRU, cache.Option{Size: 2, TTL: time.Hour}
+		}
+		var cerr error
+		if chainCache, cerr = cache.NewIssuanceChainCache(context.Background(), ctype, copt); cerr != nil {
+			panic(cerr)
+		}
+	}
 	maxr := []int64{1, 2, 3, 5, 7, 50, 1000}[r.Intn(7)]
 	algn := r.Intn(2) == 0
 	ctfe.MaxGetEntriesAllowed = maxr
@@ -1071,8 +1701,12 @@ func runHistory(w *world, r *rand.Rand, conc bool, caseNo int) lib.Case {
 		panic(err)
 	}
 	var hs *hookedSigner
-	env, err := ctfeenv.New(ctfeenv.Options{Roots: []*pki.Entity{w.rootA, w.rootB}, Dir: *lib.OutDir, LogKey: w.logKey,
-		WrapSigner: func(s crypto.Signer) crypto.Signer { hs = &hookedSigner{inner: s}; return hs }})
+	eopts := ctfeenv.Options{Roots: []*pki.Entity{w.rootA, w.rootB}, Dir: *lib.OutDir, LogKey: w.logKey}
+	if store != nil {
+		eopts.ChainStorage, eopts.ChainCache = store, chainCache
+	}
+	eopts.WrapSigner = func(s crypto.Signer) crypto.Signer { hs = &hookedSigner{inner: s}; return hs }
+	env, err := ctfeenv.New(eopts)
 	if err != nil {
 		panic(err)
 	}
@@ -1110,7 +1744,8 @@ func runHistory(w *world, r *rand.Rand, conc bool, caseNo int) lib.Case {
 	}
 	li := &ctutil.LogInfo{Description: "c06", Client: lc, Verifier: w.verifier, PublicKey: w.pubDER}
 	h := &hist{w: w, r: r, env: env, log: lg, rt: rt, lc: lc, li: li, maxr: maxr, algn: algn, ns0: ns0,
-		subs: map[callTag]*submission{}, conc: conc, tags: map[string]int{}, clockNS: clock0.UnixNano(), signer: hs}
+		cf: cf, external: store != nil, store: store, servedAt: map[int]servedEntry{},
+		subs: map[callTag]*submission{}, conc: conc, tags: map[string]int{}, clockNS: clock0.UnixNano(), signer: hs, rootNS: ns0}
 	h.stray = pki.Issue(pki.Opts{CN: "stray.example", KeyIdx: 12}, w.untrusted)
 
 	call := 0
@@ -1124,9 +1759,7 @@ func runHistory(w *world, r *rand.Rand, conc bool, caseNo int) lib.Case {
 		if r.Intn(4) == 0 {
 			k = lg.Queued()
 		}
-		ns := uint64(h.clockNS) + uint64(r.Int63n(2e9))
-		lg.Sequence(context.Background(), k, ns)
-		h.tagf("op:sequence-%d", min(k, 4))
+		h.sequenceAt(k, h.rootTime(r))
 	}
 
 	if !conc {
@@ -1136,7 +1769,9 @@ func runHistory(w *world, r *rand.Rand, conc bool, caseNo int) lib.Case {
 			h.submit(next(), h.freshSubject(), false)
 		}
 		for i := 0; i < n; i++ {
-			advance()
+			if r.Intn(5) != 0 { // one step in five happens at the same clock reading as the one before
+				advance()
+			}
 			if r.Intn(6) == 0 {
 				sequence()
 				continue
@@ -1179,6 +1814,7 @@ func runHistory(w *world, r *rand.Rand, conc bool, caseNo int) lib.Case {
 			g := newGate(nw + 1)
 			g.stepwise = rd == firstStepwise || r.Intn(2) == 0
 			h.sthBias = r.Intn(2) == 0
+			procs := 0
 			if g.stepwise {
 				h.tagf("round:stepwise")
 				hs.set(func(ex *exchange) error { // every signer call is a scheduling point
@@ -1187,6 +1823,16 @@ func runHistory(w *world, r *rand.Rand, conc bool, caseNo int) lib.Case {
 					}
 					return nil
 				})
+				// ... and so is every piece of a response body the ResponseWriter takes over: a
+				// request stays inside Write for as long as the draw passes it over, while other
+				// requests are served from their backend RPC to the end of their response
+				rt.setYield(func(ex *exchange) { g.enterKey(ex.tag.worker)() }, r.Uint64())
+				// one request runs at a time anyway; on a single processor the requests also share
+				// what the handlers keep per processor (sync.Pool and the like)
+				if r.Intn(2) == 0 {
+					h.tagf("processors:one")
+					procs = runtime.GOMAXPROCS(1)
+				}
 			} else {
 				h.tagf("round:parallel")
 				hs.set(func(ex *exchange) error { // a slow signer; the Go runtime schedules
@@ -1195,6 +1841,9 @@ func runHistory(w *world, r *rand.Rand, conc bool, caseNo int) lib.Case {
 					}
 					return nil
 				})
+				// the handler is descheduled between two pieces of the body; the Go runtime decides
+				// who runs meanwhile
+				rt.setYield(func(ex *exchange) { runtime.Gosched() }, r.Uint64())
 			}
 			if h.sthBias {
 				h.tagf("round:get-sth-burst")
@@ -1220,6 +1869,7 @@ func runHistory(w *world, r *rand.Rand, conc bool, caseNo int) lib.Case {
 					}
 				}(wk)
 			}
+			roundNS := h.rootNS
 			wg.Add(1)
 			go func() { // the backend's sequencer runs concurrently with the requests
 				defer wg.Done()
@@ -1227,14 +1877,26 @@ func runHistory(w *world, r *rand.Rand, conc bool, caseNo int) lib.Case {
 				rr := rand.New(rand.NewSource(seeds[0]))
 				for j := 0; j < 2+rr.Intn(2); j++ {
 					ns := uint64(h.clockNS) + uint64(rr.Int63n(2e9))
+					switch rr.Intn(6) { // roots less than a millisecond apart
+					case 0:
+						ns = roundNS
+					case 1:
+						ns = roundNS + uint64(rr.Int63n(int64(1000000-roundNS%1000000)))
+					}
+					roundNS = ns
 					lg.Sequence(context.WithValue(context.Background(), workerKey{}, -7), rr.Intn(4), ns)
 					h.tagf("op:sequence-concurrent")
 				}
 			}()
 			g.schedule(r)
 			wg.Wait()
+			h.rootNS = roundNS
 			lg.Gate = nil
 			hs.set(nil)
+			rt.setYield(nil, 0)
+			if procs > 0 {
+				runtime.GOMAXPROCS(procs)
+			}
 			h.inRound, h.pool, h.sthBias = false, nil, false
 		}
 	}
@@ -1242,10 +1904,24 @@ func runHistory(w *world, r *rand.Rand, conc bool, caseNo int) lib.Case {
 	for i, k := 0, []int{0, 1, 1, 2}[r.Intn(4)]; i < k; i++ {
 		h.sthOverlap(next, advance)
 	}
+	// requests held inside Write while other requests are served; tree heads less than 1 ms apart
+	// seen by the long-lived client
+	for _, sc := range r.Perm(2) {
+		if r.Intn(2) != 0 {
+			continue
+		}
+		if sc == 0 {
+			h.heldInsideWrite(next, advance)
+		} else {
+			h.headsInOneMillisecond(next, advance)
+		}
+	}
 
 	// ---- audit: the property's sentences over everything this history produced
-	advance()
-	lg.Sequence(context.Background(), lg.Queued(), uint64(h.clockNS)+uint64(r.Int63n(2e9)))
+	if r.Intn(4) != 0 {
+		advance()
+	}
+	h.sequenceAt(lg.Queued(), h.rootTime(r))
 	final := h.getSTH(next())
 	if final != nil {
 		size := final.TreeSize
@@ -1284,6 +1960,7 @@ func runHistory(w *world, r *rand.Rand, conc bool, caseNo int) lib.Case {
 		}
 		// every issued SCT: found by the client's leaf hash, single index, decodes to the submission
 		all, _ := h.fetchAll(next, int64(size))
+		audited := 0
 		for _, sb := range h.accepted {
 			// the leaf hash derived from certificate + SCT alone (RFC 6962 by hand, reference data
 			// of the harness's PKI) is found in the final tree, with a verifying audit path: when it
@@ -1298,7 +1975,22 @@ func runHistory(w *world, r *rand.Rand, conc bool, caseNo int) lib.Case {
 					h.tagf("audit:sct-preissuer")
 				}
 			}
-			idx := h.verifyInclusion(next(), sb, size, true)
+			// through the entry points of the history's LogInfo in turn: the first look-up refreshes
+			// the STH it holds (VerifyInclusion), the later ones use the tree given explicitly, the
+			// current one or the one held
+			how := viCurrent
+			if audited > 0 {
+				how = []int{viAt, viAt, viCurrent, viLatest}[r.Intn(4)]
+			}
+			audited++
+			h.tagf("audit:loginfo-" + viName[how])
+			idx := h.verifyInclusion(next(), sb, how, size)
+			if idx < 0 && h.seqIndex(sb) < 0 {
+				h.fail("SCT leaf of %s (%s) is not in the backend's tree after everything queued was sequenced", sb.sub.name, sb.sub.kind)
+			}
+			if idx < 0 && how != viAt { // the rest of the audit needs the index: explicit final tree
+				idx = h.verifyInclusion(next(), sb, viAt, size)
+			}
 			if idx < 0 {
 				continue
 			}
@@ -1353,8 +2045,17 @@ func runHistory(w *world, r *rand.Rand, conc bool, caseNo int) lib.Case {
 		for i := 0; i < int(size) && i < 6; i++ {
 			j := uint64(r.Intn(int(size)))
 			ts := j + 1 + uint64(r.Intn(int(size-j)))
-			h.entryAndProof(next(), j, ts, true)
+			h.entryAndProof(next(), j, ts, true) // also: byte for byte what get-entries served for j above (h.served)
 			h.tagf("audit:entry-and-proof")
+		}
+		if store != nil {
+			// the configuration was in force: chains went to the store and were read back from it
+			store.mu.Lock()
+			adds, got := store.adds, store.got
+			store.mu.Unlock()
+			if len(h.accepted) > 0 && adds == 0 || size > 0 && got == 0 {
+				panic("c06 harness: the instance did not use the external issuance-chain storage")
+			}
 		}
 	}
 
@@ -1402,7 +2103,12 @@ func (h *hist) fetchAll(next func() callTag, size int64) ([]ct.LeafEntry, error)
 			h.fail("get-entries(%d,%d) during audit: %v", len(all), size-1, err)
 			return all, err
 		}
-		all = append(all, rsp.Entries...)
+		for _, e := range rsp.Entries {
+			if len(all) < h.log.Size() {
+				h.served("get-entries", len(all), e.LeafInput, e.ExtraData)
+			}
+			all = append(all, e)
+		}
 	}
 	return all, nil
 }
@@ -1572,6 +2278,9 @@ func (h *hist) emit(caseNo int) lib.Case {
 					break
 				}
 				ok := ctutil.VerifySCT(w.logKey.Public(), sb.chainP, sct, false) == nil
+				if why := w.rawSCTCheck(ex.body, sb.sub); why != "" {
+					h.fail("SCT for %s (%s) under a %s log key: %s", sb.sub.name, sb.sub.kind, w.keyKind, why)
+				}
 				lh, _ := ctutil.LeafHash(sb.chainP, sct, false)
 				obs = fmt.Sprintf("XSct %s %s %s", lib.Nn(sct.Timestamp), lib.Bool(ok), lib.Hex(lh[:]))
 				out["sct_timestamp"] = sct.Timestamp
@@ -1614,6 +2323,9 @@ func (h *hist) emit(caseNo int) lib.Case {
 				}
 				if !ok {
 					h.fail("STH signature does not verify")
+				}
+				if why := w.rawSTHCheck(ex.body); why != "" {
+					h.fail("STH under a %s log key: %s", w.keyKind, why)
 				}
 			}
 		case ct.GetSTHConsistencyPath:
@@ -1713,8 +2425,8 @@ func (h *hist) emit(caseNo int) lib.Case {
 	for _, c := range w.certs {
 		certs = append(certs, lib.Bytes(c))
 	}
-	term := fmt.Sprintf("CHist %s %s %s %s %s %s %s %s", lib.List(tbl), lib.List(certs), natList(pcs), trusted,
-		lib.Z(h.maxr), lib.Bool(h.algn), lib.ZBig(bigUint(h.ns0)), lib.List(coq))
+	term := fmt.Sprintf("CHist %s %s %s %s %s %s %s %s %s", lib.List(tbl), lib.List(certs), natList(pcs), trusted,
+		lib.Z(h.maxr), lib.Bool(h.algn), lib.Bool(h.external), lib.ZBig(bigUint(h.ns0)), lib.List(coq))
 	mode := "sequential"
 	if h.conc {
 		mode = "concurrent"
@@ -1724,7 +2436,7 @@ func (h *hist) emit(caseNo int) lib.Case {
 		tags = append(tags, t)
 	}
 	sort.Strings(tags)
-	tags = append(tags, "mode:"+mode, fmt.Sprintf("maxr:%d", h.maxr), fmt.Sprintf("final-size:%d", min(h.log.Size()/5*5, 30)))
+	tags = append(tags, "log-key:"+w.keyKind, "chains:"+h.cf.store, "mode:"+mode, fmt.Sprintf("maxr:%d", h.maxr), fmt.Sprintf("final-size:%d", min(h.log.Size()/5*5, 30)))
 	note := ""
 	if len(h.fails) > 0 {
 		sort.Strings(h.fails)
@@ -1735,7 +2447,7 @@ func (h *hist) emit(caseNo int) lib.Case {
 		note = "twin-precertificates: " + h.twinFails[0]
 	}
 	return lib.Case{Coq: term,
-		Input:  map[string]interface{}{"mode": mode, "max_get_entries": h.maxr, "align": h.algn, "steps": inJ},
+		Input:  map[string]interface{}{"mode": mode, "max_get_entries": h.maxr, "align": h.algn, "log_key": w.keyKind, "issuance_chains": h.cf.store, "steps": inJ},
 		Impl:   map[string]interface{}{"observations": outJ, "oracle_failures": h.fails, "final_size": h.log.Size()},
 		PropOK: len(h.fails) == 0 && len(h.twinFails) == 0, Note: note, Tags: tags}
 }
@@ -1750,16 +2462,8 @@ func main() {
 	kfs.Set("stderrthreshold", "FATAL")
 	klog.SetOutput(io.Discard)
 	r := lib.Rand()
-	w := &world{logKey: pki.Key("p256", 7), serial: 5000}
-	var err error
-	w.pubDER, err = ctx509.MarshalPKIXPublicKey(w.logKey.Public())
-	if err != nil {
-		panic(err)
-	}
-	w.verifier, err = ct.NewSignatureVerifier(w.logKey.Public())
-	if err != nil {
-		panic(err)
-	}
+	stdlog.SetOutput(io.Discard) // the client library's warning about a log key that is not P-256 / RSA
+	w := &world{serial: 5000}
 	w.rootA = pki.Issue(pki.Opts{CN: "c06 root A", IsCA: true, KeyIdx: 0}, nil)
 	w.rootB = pki.Issue(pki.Opts{CN: "c06 root B", IsCA: true, KeyIdx: 1}, nil)
 	w.interA = pki.Issue(pki.Opts{CN: "c06 intermediate", IsCA: true, KeyIdx: 2}, w.rootA)
@@ -1771,11 +2475,12 @@ func main() {
 	defer wr.Guard()
 	nseq := lib.Count(10, 40)
 	nconc := nseq / 2
+	cfs, cfc := deal(r, nseq), deal(r, nconc)
 	for i := 0; i < nseq; i++ {
-		wr.Add(runHistory(w, r, false, i))
+		wr.Add(runHistory(w, r, false, i, cfs[i]))
 	}
 	for i := 0; i < nconc; i++ {
-		wr.Add(runHistory(w, r, true, nseq+i))
+		wr.Add(runHistory(w, r, true, nseq+i, cfc[i]))
 	}
 	wr.Close()
 	fmt.Printf("c06: wrote %d histories\n", wr.Len())
